@@ -564,6 +564,29 @@ fn suite_c14(g: &Gram, out: &mut Out, rng: &mut Rng, n_modules: usize) {
             }
         }
     }
+    // "one call per instruction in stream order, then finalize" around the context-dependent literals of every declared
+    // width: a type, a value of it, OpConstant / OpSpecConstant / OpSwitch with 0..3 cases, then further instructions
+    for &(is_int, width) in &[(true, 8u32), (true, 16), (true, 32), (true, 64), (false, 16), (false, 32), (false, 64)] {
+        let words = if width == 64 { 2 } else { 1 };
+        let ty = if is_int { SInst { op: 21, rt: None, rid: Some(1), ops: vec![SOp::one("LiteralBit32", width), SOp::one("LiteralBit32", rng.below(2) as u32)] } }
+                 else { SInst { op: 22, rt: None, rid: Some(1), ops: vec![SOp::one("LiteralBit32", width)] } };
+        let val = SInst { op: 1, rt: Some(1), rid: Some(2), ops: vec![] };
+        let lit = |rng: &mut Rng| if words == 2 { SOp { k: "LiteralBit64".into(), w: vec![rng.word(), rng.word()], s: None } } else { SOp::one("LiteralBit32", rng.word()) };
+        for cases in 0..4u32 {
+            let mut ops = vec![SOp::one("IdRef", 2), SOp::one("IdRef", 50)];
+            for c in 0..cases { ops.push(lit(rng)); ops.push(SOp::one("IdRef", 60 + c)); }
+            let sw = SInst { op: 251, rt: None, rid: None, ops };
+            let k1 = SInst { op: 43, rt: Some(1), rid: Some(9), ops: vec![lit(rng)] };
+            let k2 = SInst { op: 50, rt: Some(1), rid: Some(10), ops: vec![lit(rng)] };
+            let mut ws: Vec<u32> = HEADER.to_vec();
+            for i in [&ty, &val, &k1, &sw, &k2] { ws.extend(i.encode()); }
+            ws.push(1 << 16);
+            ws.extend(sw.encode());
+            ws.push(1 << 16);
+            ws.extend(k1.encode());
+            out.ev(parse_event(&ws, &[], &[], cases % 2 == 0, "c14-widths"));
+        }
+    }
     for _ in 0..n_modules {
         let (ws, starts) = random_module(g, rng, 3);
         let variants: Vec<(Vec<u32>, Vec<u8>, &str)> = {
